@@ -196,6 +196,18 @@ def worker(args):
             send_body = body
             declared = len(body)
             expect = "ok"
+            released = False
+            if kind == "ok" and app == b"/upload" and parts:
+                # filters that look at the data (a CSRF token check reads the field's stream) or take themselves off the request half way
+                x = rnd.random()
+                if x < 0.3:
+                    query.append(b"read=" + rnd.choice([b"r", b"p"]))
+                    cnt("uploads_with_an_inspecting_filter")
+                elif x < 0.45:
+                    ev = rnd.choice(["n", "r", "p"])
+                    query.append(b"release=%s%d" % (ev.encode(), rnd.randrange(1, len(parts) + 1)))
+                    released = True
+                    cnt("uploads_with_a_filter_released_half_way")
             if kind == "ok" and parts and rnd.random() < 0.2 and app != b"/rawup":
                 # RFC 2046: the CRLF after the close delimiter belongs to the (optional) epilogue, a body may end with "--boundary--"
                 send_body = body = body[:-2]
@@ -316,7 +328,11 @@ def worker(args):
                     cnt("raw_filter_checked")
                 if app == b"/upload" and send_body:
                     kv = dict(x.split("=") for x in xf.split())
-                    if int(kv["new_files"]) != len(parts) or int(kv["ready"]) != len(parts) or kv["eoc"] != "1" or kv["errors"] != "0":
+                    if released:
+                        if kv["errors"] != "0":
+                            res["viol"].append({"key": "c12:multipart-filter-callbacks-wrong:" + pn, "detail": xf + " parts=%d (filter released half way)" % len(parts), "replay": rp})
+                            break
+                    elif int(kv["new_files"]) != len(parts) or int(kv["ready"]) != len(parts) or kv["eoc"] != "1" or kv["errors"] != "0":
                         res["viol"].append({"key": "c12:multipart-filter-callbacks-wrong:" + pn, "detail": xf + " parts=%d" % len(parts), "replay": rp})
                         break
                     cnt("multipart_filter_checked")
